@@ -997,6 +997,7 @@ PROPS["C15"] = {"generate": c15_generate,
 def c19_generate(rng, tier):
     import regen
     a = genhist.gen_bounds(rng, count(tier, 60, 400), nmax=count(tier, 5, 6), exhaustive_upto=count(tier, 4, 5))
+    a += genhist.gen_bounds_alpha(rng, count(tier, 100, 1000))
     b = genhist.gen_closed(rng, tier)
     extra = []
     # true gonality of the graphs behind the multipartite closed form, by the verified search (model side only)
